@@ -66,14 +66,14 @@ def path_events(N, src, rng):
                "res": [ab.enc(x) for x in path] if path is not None else ["~none~"], "src": dict(src, w="")}
 
 
-def pda_events(P, n, src, budget, limit=40):
+def pda_events(P, n, src, budget, limit=40, words=None):
     import gambatools.pda_algorithms as pa
     from gambatools.global_settings import GambaTools
     absP = ab.pda(P)
     default = GambaTools.pda_epsilon_closure_max_iterations
     GambaTools.pda_epsilon_closure_max_iterations = limit
     try:
-        for w in U.words_upto(sorted(P.Sigma), n if len(P.Sigma) < 2 else 2):
+        for w in (words if words is not None else U.words_upto(sorted(P.Sigma), n if len(P.Sigma) < 2 else 2)):
             if budget["t"] <= 0:
                 budget["skipped"] += 1
                 return
@@ -128,6 +128,8 @@ def drive(task):
         if task["part"] == 0:
             for src in pdasrc.SPECIAL:
                 yield from pda_events(pdasrc.build(src), task["n"], src, budget)
+            for src, words in pdasrc.DEEP:
+                yield from pda_events(pdasrc.build(src), 0, src, budget, limit=60, words=words)
     elif k == "rnd_pda":
         for i in range(task["count"]):
             src = {"kind": "pda_rnd", "seed": task["seed"] * 100000 + i}
@@ -137,7 +139,15 @@ def drive(task):
         for rules in cfgsrc.SPECIAL:
             yield from cfg_events({"kind": "cfg_rules", "rules": [list(r) for r in rules]}, task["n"])
         for i in range(task["count"]):
-            yield from cfg_events(cfgsrc.random_src(rng, cnf=rng.random() < 0.6), task["n"])
+            src = cfgsrc.random_src(rng, cnf=rng.random() < 0.6)
+            if i % 5 == 4:
+                src["vnames"] = rng.randrange(len(U.VAR_NAME_POOLS))      # multi-character variable names
+            yield from cfg_events(src, task["n"])
+            if i % 3 == 1:
+                # history: the same rule list with ANOTHER start variable, in the same process
+                lhs = sorted({r[0] for r in src["rules"]} - {src["rules"][0][0]})
+                if lhs:
+                    yield from cfg_events(dict(src, start=lhs[0]), task["n"])
 
 
 def redrive(src):
@@ -149,7 +159,8 @@ def redrive(src):
     elif k in ("exh_dfa", "rnd_dfa"):
         evs = fa_events(gen.build_dfa(src), "dfa", 3, src, budget)
     elif k.startswith("pda"):
-        evs = pda_events(pdasrc.build(src), 3, src, budget)
+        evs = pda_events(pdasrc.build(src), 3, src, budget, limit=60 if w and len(w) > 3 else 40,
+                         words=[w] if w and len(w) > 3 else None)
     else:
         yield from cfg_events(src, src.pop("n", 4))
         return
@@ -162,7 +173,8 @@ MODELS = {"quick": [("EpsPath", "EpsPath_q.cfg", "all eps-graphs on 3 states x a
                      "edge orders: the back-pointer walk terminates with a genuine path")],
           "thorough": [("EpsPath", "EpsPath_t.cfg", "all eps-graphs on 4 states")]}
 RULE = ("NFA(2,{a,b}) and NFA(3,{a}) (strided), random NFAs (epsilon self-loops and cycles frequent), DFA(3,{a,b}) "
-        "(strided), the PDA universes of C09, CNF grammars (hand-written + random, converted when necessary); every word "
+        "(strided), the PDA universes of C09 plus three PDAs with deep stacks drained by epsilon pops on words of length "
+        "5-16, CNF grammars (hand-written + random, converted when necessary); every word "
         "<= 3 (2 for larger alphabets) simulated under 8 (32) PYTHONHASHSEEDs; a call that does not return within 4 s "
         "is a non-termination (at most 8 per task are waited for); derivations leftmost and rightmost for <= 5 "
         "generated words per grammar; non-trivial = the word is accepted and non-empty; distinct = distinct (object, "
